@@ -186,17 +186,27 @@ _json_key = st.one_of(
 )
 
 
-def json_values(max_leaves=8):
+_nonfinite = st.sampled_from([float('inf'), float('-inf'), float('nan'),
+                              1e308, -1e-320])
+
+
+def json_values(max_leaves=8, nonfinite=False):
+    leaf = _json_leaf
+
+    if nonfinite:
+        leaf = st.one_of(_json_leaf, _json_leaf, _json_leaf, _json_leaf,
+                         _nonfinite)
+
     return st.recursive(
-        _json_leaf,
+        leaf,
         lambda children: st.one_of(
             st.lists(children, max_size=3),
             st.dictionaries(_json_key, children, max_size=3)),
         max_leaves=max_leaves)
 
 
-def json_objects(max_leaves=8, min_size=1):
-    return st.dictionaries(_json_key, json_values(max_leaves),
+def json_objects(max_leaves=8, min_size=1, nonfinite=False):
+    return st.dictionaries(_json_key, json_values(max_leaves, nonfinite),
                            min_size=min_size, max_size=4)
 
 
@@ -404,22 +414,49 @@ def call_writer(writer, op, kw):
                                  'diff_type', 'meta_format') else v)
           for k, v in kw.items()}
 
+    # every third call goes through the documented positional order
+    positional = len(repr(sorted(kw))) % 3 == 0
+
     if op == 'change':
+        if positional and 'encoding' in kw:
+            return writer.new_change(kw['encoding'])
+
         return writer.new_change(**kw)
 
     if op == 'file':
+        if positional and 'encoding' in kw:
+            return writer.new_file(kw['encoding'])
+
         return writer.new_file(**kw)
 
     if op == 'preamble':
         text = kw.pop('text')
+
+        if positional:
+            return writer.write_preamble(text, kw.get('encoding'),
+                                         kw.get('indent', 4),
+                                         kw.get('line_endings'),
+                                         kw.get('mimetype'))
+
         return writer.write_preamble(text, **kw)
 
     if op == 'meta':
         md = kw.pop('metadata')
+
+        if positional and 'line_endings' not in kw:
+            return writer.write_meta(md, kw.get('encoding'),
+                                     kw.get('meta_format', 'json'))
+
         return writer.write_meta(md, **kw)
 
     if op == 'diff':
         content = kw.pop('content')
+
+        if positional:
+            return writer.write_diff(content, kw.get('diff_type'),
+                                     kw.get('encoding'),
+                                     kw.get('line_endings'))
+
         return writer.write_diff(content, **kw)
 
     raise ValueError(op)
